@@ -1,7 +1,7 @@
 (** C02 — Settle preserves the filled region and returns a canonical simple path.
     Property theorems only. *)
 From Coq Require Import ZArith List Bool.
-From CV Require Import Geom.Winding Bool.Region Bool.Sweep Bool.SweepProofs Bool.Check.
+From CV Require Import Geom.Winding Bool.Region Bool.Sweep Bool.SweepProofs Bool.Check Bool.MergeOrder Bool.MergeOrderProofs.
 Import ListNotations.
 Open Scope Z_scope.
 
@@ -57,3 +57,11 @@ Print Assumptions C02_settle_idempotent_region.
 Theorem C02_guard_off_boundary : forall p a b g2, 0 < g2 -> far_seg p a b g2 = true -> on_seg p a b = false.
 Proof. exact far_seg_off. Qed.
 Print Assumptions C02_guard_off_boundary.
+
+(** Settle (op 0), any fill rule: merging coincident segments in ANY order keeps, for every segment that survives, the winding
+    totals below it and "kept iff the filled status changes across it" (instance of C01_merge_any_order_spec) *)
+Theorem C02_settle_merge_any_order : forall segs ks rule,
+  Forall (fun s => plain s /\ sOverlapped s = false) segs ->
+  col_spec_ok_ov [] (mscan_seq (propagate segs 0 rule) ks 0 rule) 0 rule = true.
+Proof. exact settle_merge_any_order. Qed.
+Print Assumptions C02_settle_merge_any_order.
